@@ -1174,4 +1174,312 @@ theorem qos2_exchange (c : C) (hc : c.connected = true) (he : c.pub2in = []) (p 
     rw [runState_append, d1]
     simp only [runState, List.foldl_cons, List.foldl_nil, h3]
 
+/-! ### packet identifiers -/
+
+/-- the identifier `Encode` puts into a request: the caller's, or the next value of the counter -/
+def assigned (c : C) (id : Nat) : Nat := if id = 0 then (c.ctr + 1) % 65536 else id
+
+/-- identifier of a written PUBLISH (QoS > 0), SUBSCRIBE or UNSUBSCRIBE -/
+def writtenId : Out → Option Nat
+  | .wrote (.publish p) => if p.qos == 0 then none else some p.pktid
+  | .wrote (.subscribe id _) => some id
+  | .wrote (.unsubscribe id _) => some id
+  | _ => none
+
+theorem assignId_snd (c : C) (id : Nat) : (assignId c id).2 = assigned c id := by
+  unfold assignId assigned
+  by_cases h : id = 0
+  · subst h; rfl
+  · have : (id == 0) = false := by simpa using h
+    simp [this, h]
+
+/-- the request is written with the assigned identifier and registered under the same one -/
+theorem apiWrite_ids (c : C) (call : Api) (k : Kind) (id tag : Nat) (h : callReq call = some (k, id, tag)) :
+    (apiWrite c call).2.1.filterMap writtenId = [assigned c id] ∧
+    callReq (apiWrite c call).2.2 = some (k, assigned c id, tag) := by
+  cases call with
+  | publish p tag' =>
+    simp only [callReq] at h
+    by_cases h0 : (p.qos == 0) = true
+    · simp [h0] at h
+    · have h0' : (p.qos == 0) = false := by simpa using h0
+      simp only [h0', Bool.false_eq_true, ↓reduceIte] at h
+      by_cases h1 : (p.qos == 1) = true
+      · simp only [h1, ↓reduceIte, Option.some.injEq, Prod.mk.injEq] at h
+        obtain ⟨rfl, rfl, rfl⟩ := h
+        simp [apiWrite, h0', writtenId, callReq, h1, assignId_snd]
+      · have h1' : (p.qos == 1) = false := by simpa using h1
+        simp only [h1', Bool.false_eq_true, ↓reduceIte, Option.some.injEq, Prod.mk.injEq] at h
+        obtain ⟨rfl, rfl, rfl⟩ := h
+        simp [apiWrite, h0', writtenId, callReq, h1', assignId_snd]
+  | subscribe id' topics tag' cb =>
+    simp only [callReq, Option.some.injEq, Prod.mk.injEq] at h
+    obtain ⟨rfl, rfl, rfl⟩ := h
+    simp [apiWrite, writtenId, callReq, assignId_snd]
+  | unsubscribe id' topics tag' =>
+    simp only [callReq, Option.some.injEq, Prod.mk.injEq] at h
+    obtain ⟨rfl, rfl, rfl⟩ := h
+    simp [apiWrite, writtenId, callReq, assignId_snd]
+  | ping tag' => simp [callReq] at h
+
+theorem regAccepted_ids (k : Kind) (c : C) (call : Api) (r : Req) (hr : r ∈ regAccepted k c call) :
+    (∃ tag, callReq call = some (k, r.id, tag)) ∧ ∀ e ∈ queue k c, e.id ≠ r.id := by
+  unfold regAccepted at hr
+  cases hq : reqOf k call with
+  | none => simp [hq] at hr
+  | some r0 =>
+    simp only [hq] at hr
+    split at hr
+    · simp at hr
+    · rename_i hany
+      have : r = r0 := by simpa using hr
+      subst this
+      refine ⟨?_, ?_⟩
+      · cases call with
+        | publish p tag' =>
+          cases k <;> simp [reqOf] at hq
+          · obtain ⟨h1, rfl⟩ := hq; exact ⟨tag', by simp [callReq, h1]⟩
+          · obtain ⟨h0, h1, rfl⟩ := hq; exact ⟨tag', by simp [callReq, h0, h1]⟩
+        | subscribe id' topics tag' cb =>
+          cases k <;> simp [reqOf] at hq
+          subst hq; exact ⟨tag', rfl⟩
+        | unsubscribe id' topics tag' =>
+          cases k <;> simp [reqOf] at hq
+          subst hq; exact ⟨tag', rfl⟩
+        | ping tag' => cases k <;> simp [reqOf] at hq
+      · intro e he hid
+        exact hany (List.any_eq_true.mpr ⟨e, he, by simpa using hid⟩)
+
+/-- identifiers within each queue are pairwise distinct -/
+def IdsNodup (c : C) : Prop := ∀ k, ((queue k c).map (·.id)).Nodup
+
+/-- identifiers in flight are non-zero -/
+def IdsNonzero (c : C) : Prop := ∀ k, ∀ e ∈ queue k c, e.id ≠ 0
+
+theorem map_key_id (l : List Req) : (l.map key).map (·.1) = l.map (·.id) := by
+  simp [key, List.map_map, Function.comp_def]
+
+theorem peer_ids_sublist (k : Kind) (c : C) (p : Packet) :
+    ((queue k (peer c p).1).map (·.id)).Sublist ((queue k c).map (·.id)) := by
+  have := congrArg (List.map (·.1)) (peer_conservation k c p)
+  simp only [List.map_append, map_key_id] at this
+  rw [← this]
+  exact List.sublist_append_right _ _
+
+theorem idsNodup_peer (c : C) (p : Packet) (h : IdsNodup c) : IdsNodup (peer c p).1 :=
+  fun k => (h k).sublist (peer_ids_sublist k c p)
+
+theorem idsNodup_apiWrite (c : C) (call : Api) (h : IdsNodup c) : IdsNodup (apiWrite c call).1 := by
+  intro k; rw [apiWrite_queue]; exact h k
+
+theorem idsNodup_apiRegister (c : C) (call : Api) (h : IdsNodup c) : IdsNodup (apiRegister c call).1 := by
+  intro k
+  rw [apiRegister_queue, List.map_append, List.nodup_append]
+  refine ⟨h k, ?_, ?_⟩
+  · unfold regAccepted
+    split
+    · split <;> simp
+    · simp
+  · intro a ha b hb hab
+    simp only [List.mem_map] at ha hb
+    obtain ⟨e, he, rfl⟩ := ha
+    obtain ⟨r, hr, rfl⟩ := hb
+    exact (regAccepted_ids k c call r hr).2 e he hab
+
+theorem idsNodup_init : IdsNodup init := by
+  intro k; cases k <;> simp [init, queue]
+
+theorem idsNodup_step (c : C) (ev : Ev) (h : IdsNodup c) : IdsNodup (step c ev).1 := by
+  by_cases hc : c.connected = true
+  · cases ev with
+    | connect a =>
+      cases a with
+      | connack sp code =>
+        simp only [step, connect]
+        split
+        · intro k; have := h k; cases k <;> exact this
+        · exact h
+      | _ => exact h
+    | api call => rw [step_api c hc]; exact idsNodup_apiRegister _ _ (idsNodup_apiWrite _ _ h)
+    | peer p => rw [step_peer c hc]; exact idsNodup_peer _ _ h
+    | apiEarlyAck call ack =>
+      simp only [step, hc, Bool.not_true, Bool.false_eq_true, ↓reduceIte]
+      exact idsNodup_apiRegister _ _ (idsNodup_peer _ _ (idsNodup_apiWrite _ _ h))
+  · have hc' : c.connected = false := by simpa using hc
+    cases ev with
+    | connect a =>
+      cases a with
+      | connack sp code =>
+        simp only [step, connect]
+        split
+        · intro k; have := h k; cases k <;> exact this
+        · exact h
+      | _ => exact h
+    | _ => simp only [step, hc', Bool.not_false, ↓reduceIte]; exact h
+
+theorem idsNodup_run (c : C) (evs : List Ev) (h : IdsNodup c) : IdsNodup (runState c evs) := by
+  induction evs generalizing c with
+  | nil => exact h
+  | cons ev evs ih => exact ih _ (idsNodup_step c ev h)
+
+/-- the call's identifier is supplied and non-zero, or the counter is not about to wrap to 0 -/
+def idOkStep (c : C) : Ev → Bool
+  | .api call | .apiEarlyAck call _ =>
+    match callReq call with
+    | some (_, id, _) => assigned c id != 0
+    | none => true
+  | _ => true
+
+def IdOk (c : C) : List Ev → Bool
+  | [] => true
+  | ev :: evs => idOkStep c ev && IdOk (step c ev).1 evs
+
+theorem idsNonzero_peer (c : C) (p : Packet) (h : IdsNonzero c) : IdsNonzero (peer c p).1 := by
+  intro k e he
+  have hm : e.id ∈ (queue k (peer c p).1).map (·.id) := List.mem_map.mpr ⟨e, he, rfl⟩
+  have := (peer_ids_sublist k c p).subset hm
+  obtain ⟨e', he', hid⟩ := List.mem_map.mp this
+  rw [← hid]; exact h k e' he'
+
+theorem idsNonzero_api (c : C) (call : Api) (h : IdsNonzero c)
+    (hok : ∀ k id tag, callReq call = some (k, id, tag) → assigned c id ≠ 0) (c' : C)
+    (hq : ∀ k, queue k c' = queue k c) :
+    IdsNonzero (apiRegister c' (apiWrite c call).2.2).1 := by
+  intro k e he
+  rw [apiRegister_queue, List.mem_append] at he
+  rcases he with he | he
+  · rw [hq] at he; exact h k e he
+  · obtain ⟨⟨tag, hreq⟩, _⟩ := regAccepted_ids k c' _ e he
+    cases hcr : callReq call with
+    | none =>
+      exfalso
+      cases call with
+      | publish p tag' =>
+        simp only [callReq] at hcr
+        by_cases h0 : (p.qos == 0) = true
+        · simp [apiWrite, h0, callReq] at hreq
+        · have h0' : (p.qos == 0) = false := by simpa using h0
+          simp only [h0', Bool.false_eq_true, ↓reduceIte] at hcr
+          split at hcr <;> cases hcr
+      | subscribe id' topics tag' cb => cases hcr
+      | unsubscribe id' topics tag' => cases hcr
+      | ping tag' => simp [apiWrite, callReq] at hreq
+    | some x =>
+      obtain ⟨k', id, tag'⟩ := x
+      have := (apiWrite_ids c call k' id tag' hcr).2
+      rw [this] at hreq
+      simp only [Option.some.injEq, Prod.mk.injEq] at hreq
+      rw [← hreq.2.1]
+      exact hok k' id tag' hcr
+
+theorem idsNonzero_init : IdsNonzero init := by
+  intro k e he; cases k <;> simp [init, queue] at he
+
+theorem idsNonzero_step (c : C) (ev : Ev) (h : IdsNonzero c) (hok : idOkStep c ev = true) :
+    IdsNonzero (step c ev).1 := by
+  by_cases hc : c.connected = true
+  · cases ev with
+    | connect a =>
+      cases a with
+      | connack sp code =>
+        simp only [step, connect]
+        split
+        · intro k; have := h k; cases k <;> exact this
+        · exact h
+      | _ => exact h
+    | api call =>
+      rw [step_api c hc]
+      refine idsNonzero_api c call h ?_ _ (fun k => apiWrite_queue k c call)
+      intro k id tag hreq
+      simpa [idOkStep, hreq] using hok
+    | peer p => rw [step_peer c hc]; exact idsNonzero_peer _ _ h
+    | apiEarlyAck call ack =>
+      simp only [step, hc, Bool.not_true, Bool.false_eq_true, ↓reduceIte]
+      have h1 : IdsNonzero (peer (apiWrite c call).1 ack).1 := by
+        apply idsNonzero_peer
+        intro k e he
+        rw [apiWrite_queue] at he
+        exact h k e he
+      intro k e he
+      rw [apiRegister_queue, List.mem_append] at he
+      rcases he with he | he
+      · exact h1 k e he
+      · obtain ⟨⟨tag, hreq⟩, _⟩ := regAccepted_ids k _ _ e he
+        cases hcr : callReq call with
+        | none =>
+          exfalso
+          cases call with
+          | publish p tag' =>
+            simp only [callReq] at hcr
+            by_cases h0 : (p.qos == 0) = true
+            · simp [apiWrite, h0, callReq] at hreq
+            · have h0' : (p.qos == 0) = false := by simpa using h0
+              simp only [h0', Bool.false_eq_true, ↓reduceIte] at hcr
+              split at hcr <;> cases hcr
+          | subscribe id' topics tag' cb => cases hcr
+          | unsubscribe id' topics tag' => cases hcr
+          | ping tag' => simp [apiWrite, callReq] at hreq
+        | some x =>
+          obtain ⟨k', id, tag'⟩ := x
+          have := (apiWrite_ids c call k' id tag' hcr).2
+          rw [this] at hreq
+          simp only [Option.some.injEq, Prod.mk.injEq] at hreq
+          rw [← hreq.2.1]
+          simpa [idOkStep, hcr] using hok
+  · have hc' : c.connected = false := by simpa using hc
+    cases ev with
+    | connect a =>
+      cases a with
+      | connack sp code =>
+        simp only [step, connect]
+        split
+        · intro k; have := h k; cases k <;> exact this
+        · exact h
+      | _ => exact h
+    | _ => simp only [step, hc', Bool.not_false, ↓reduceIte]; exact h
+
+theorem idsNonzero_run (c : C) (evs : List Ev) (h : IdsNonzero c) (hok : IdOk c evs = true) :
+    IdsNonzero (runState c evs) := by
+  induction evs generalizing c with
+  | nil => exact h
+  | cons ev evs ih =>
+    simp only [IdOk, Bool.and_eq_true] at hok
+    exact ih _ (idsNonzero_step c ev h hok.1) hok.2
+
+theorem apiRegister_out_nil (c : C) (call : Api) (k : Kind) (id tag : Nat) (h : callReq call = some (k, id, tag)) :
+    (apiRegister c call).2 = [] := by
+  cases call with
+  | publish p tag' =>
+    simp only [callReq] at h
+    by_cases h0 : (p.qos == 0) = true
+    · simp [h0] at h
+    · have h0' : (p.qos == 0) = false := by simpa using h0
+      simp only [apiRegister, h0', Bool.false_eq_true, ↓reduceIte]
+      split <;> rfl
+  | subscribe id' topics tag' cb => rfl
+  | unsubscribe id' topics tag' => rfl
+  | ping tag' => simp [callReq] at h
+
+theorem step_api_written (c : C) (hc : c.connected = true) (call : Api) (k : Kind) (id tag : Nat)
+    (h : callReq call = some (k, id, tag)) :
+    (step c (.api call)).2.filterMap writtenId = [assigned c id] ∧
+    ∀ r ∈ stepAccepted k c (.api call), r.id = assigned c id := by
+  obtain ⟨h1, h2⟩ := apiWrite_ids c call k id tag h
+  constructor
+  · rw [step_api c hc, List.filterMap_append, h1, apiRegister_out_nil _ _ k _ tag h2]
+    rfl
+  · intro r hr
+    simp only [stepAccepted, hc, ↓reduceIte] at hr
+    obtain ⟨⟨tag', hreq⟩, _⟩ := regAccepted_ids k _ _ r hr
+    rw [h2] at hreq
+    simp only [Option.some.injEq, Prod.mk.injEq] at hreq
+    exact hreq.2.1.symm
+
+theorem assigned_ne_zero_iff (c : C) (id : Nat) : assigned c id ≠ 0 ↔ id ≠ 0 ∨ c.ctr % 65536 ≠ 65535 := by
+  unfold assigned
+  by_cases h : id = 0
+  · simp only [h, ↓reduceIte, ne_eq, not_true_eq_false, false_or]
+    omega
+  · simp [h]
+
 end Mqtt.Proofs.Client
